@@ -926,7 +926,10 @@ func apiViews(in *inst.Instance, lg *inst.Log) {
 		Alerts []struct {
 			Labels map[string]string `json:"labels"`
 			Status struct {
-				MutedBy []string `json:"mutedBy"`
+				State       string   `json:"state"`
+				SilencedBy  []string `json:"silencedBy"`
+				InhibitedBy []string `json:"inhibitedBy"`
+				MutedBy     []string `json:"mutedBy"`
 			} `json:"status"`
 		} `json:"alerts"`
 	}
@@ -935,8 +938,11 @@ func apiViews(in *inst.Instance, lg *inst.Log) {
 		for _, g := range groups {
 			names := []string{}
 			muted := map[string]bool{}
+			sts := []map[string]any{}
 			for _, a := range g.Alerts {
 				names = append(names, nameOfLabels[canonLabels(a.Labels)])
+				sts = append(sts, map[string]any{"l": nameOfLabels[canonLabels(a.Labels)], "state": a.Status.State,
+					"nsil": len(a.Status.SilencedBy), "ninh": len(a.Status.InhibitedBy), "nmut": len(a.Status.MutedBy)})
 				for _, m := range a.Status.MutedBy {
 					muted[m] = true
 				}
@@ -947,7 +953,7 @@ func apiViews(in *inst.Instance, lg *inst.Log) {
 				mb = append(mb, m)
 			}
 			sort.Strings(mb)
-			out = append(out, map[string]any{"lbl": labelSetString(g.Labels), "recv": g.Receiver.Name, "alerts": names, "mutedby": mb})
+			out = append(out, map[string]any{"lbl": labelSetString(g.Labels), "recv": g.Receiver.Name, "alerts": names, "mutedby": mb, "st": sts})
 		}
 		sort.SliceStable(out, func(i, j int) bool { return out[i]["lbl"].(string) < out[j]["lbl"].(string) })
 		lg.Add(inst.Event{Ev: "api.groups", Data: map[string]any{"groups": out}})
